@@ -161,6 +161,18 @@ Section Monitor.
       + destruct o; try (destruct (mstep m _) eqn:E; [eapply IH; eauto|discriminate]). discriminate.
   Qed.
 
+  Lemma mrun_skip : forall l m,
+    Forall (fun o => mstep m (IOb o) = Some m /\ o <> OOutOfFuel) l -> mrun m (map IOb l) = Live m.
+  Proof.
+    induction l as [|x r IH]; intros m H; [reflexivity|].
+    inversion H as [|x' r' [Hx Hnf] Hr]; subst. cbn [map mrun].
+    destruct x; try (rewrite Hx; apply IH; exact Hr). contradiction Hnf. reflexivity.
+  Qed.
+
+  Lemma mrun_cons : forall o l m m',
+    o <> OOutOfFuel -> mstep m (IOb o) = Some m' -> mrun m (IOb o :: l) = mrun m' l.
+  Proof. intros o l m m' Hnf H. cbn [mrun]. destruct o; try (rewrite H; reflexivity). contradiction Hnf. reflexivity. Qed.
+
   Variable Rel : option oevent -> ostate -> M -> Prop.
   Variable m0 : M.
   Hypothesis Hinit : forall sel op iin a, Rel None (upd_answers (ostate_init cfg sel op iin) a) m0.
@@ -209,3 +221,148 @@ Section Monitor.
       eapply Hend. apply Hnow; [eapply micros_ind_inv; eauto|exact Hr2|exact Hq].
   Qed.
 End Monitor.
+
+Arguments mrun {M} mstep m l.
+
+(* ---------- 1. unsolicited responses disabled: every fragment sent is a solicited response ------- *)
+
+Definition tx_solicited (o : oobs) : Prop := match o with OTx _ b => nth 1 b 0 = 129 | _ => True end.
+
+Lemma qob_tx_solicited : forall l, Forall qob l -> Forall tx_solicited l.
+Proof.
+  intros l H. eapply Forall_impl; [|exact H]. intros o [Ho| ->]; [|exact I].
+  destruct o; try exact I. exact Ho.
+Qed.
+
+Theorem unsol_disabled_silent : forall cfg s tr,
+  o_unsol cfg = false -> Trace cfg s tr ->
+  forall d b, In (IOb (OTx d b)) tr -> nth 1 b 0 = 129.
+Proof.
+  intros cfg s tr Hu Ht d b Hin.
+  assert (H : is_uw (s_control s) = false /\ forall o, In (IOb o) tr -> tx_solicited o).
+  { eapply (trace_P cfg (fun s => is_uw (s_control s) = false) tx_solicited); [reflexivity| |auto|exact Ht].
+    intros e x o x' H [Hl Hw] Hp. destruct H.
+    - split; [destruct H2 as [-> |[_ H2]]; assumption|]. apply qob_tx_solicited. auto.
+    - congruence.
+    - congruence.
+    - rewrite H in Hp. discriminate.
+    - rewrite H in Hp. discriminate.
+    - rewrite H in Hp. discriminate.
+    - rewrite H in Hp. discriminate.
+    - subst. split; [reflexivity|]. repeat constructor.
+    - congruence.
+    - subst. split; [reflexivity|]. repeat constructor.
+    - subst. split; [exact Hp|]. repeat constructor. }
+  destruct H as [_ H]. apply (H _ Hin).
+Qed.
+
+(* ---------- 2. only empty responses, each with a fresh sequence number, until one is confirmed ---- *)
+
+Definition is_unsol (b : list N) : bool := nth 1 b 0 =? 130.
+
+(* state: has a confirmation been seen; the sequence number the next empty response must carry *)
+Definition null_mon (m : bool * N) (it : item) : option (bool * N) :=
+  let '(conf, q) := m in
+  match it with
+  | IOb (OTx _ b) =>
+      if is_unsol b then
+        if conf then Some m
+        else if (length b =? 4)%nat && (nth 0 b 0 =? 240 + q) then Some (false, seq16_next q) else None
+      else Some m
+  | IOb (OInfo (IUnsolConfirmed _)) => Some (true, q)
+  | _ => Some m
+  end.
+
+Definition null_rel (e : option oevent) (s : ostate) (m : bool * N) : Prop :=
+  fst m = false -> s_unsol s = UNullRequired /\ s_unsol_seq s = snd m /\ snd m < 16.
+
+Lemma qob_not_fuel : forall o, qob o -> o <> OOutOfFuel.
+Proof. intros o [H| ->] E; [subst; exact H|discriminate]. Qed.
+
+Lemma solob_not_unsol : forall d b, solob (OTx d b) -> is_unsol b = false.
+Proof. intros d b H. unfold is_unsol. cbn in H. rewrite H. reflexivity. Qed.
+
+Lemma null_mon_qob : forall m o, qob o -> null_mon m (IOb o) = Some m /\ o <> OOutOfFuel.
+Proof.
+  intros [conf q] o Hq. split; [|apply qob_not_fuel; exact Hq].
+  destruct Hq as [Hs| ->]; [|reflexivity].
+  destruct o; try reflexivity.
+  - cbn [null_mon]. rewrite (solob_not_unsol _ _ Hs). reflexivity.
+  - destruct i; try reflexivity. destruct Hs.
+Qed.
+
+Lemma evq_qob : forall o, evq o -> qob o.
+Proof. intros o H. left. apply evq_solob. exact H. Qed.
+
+Lemma uns_ctl_val : forall q, q < 16 -> uns_ctl q = 240 + q.
+Proof. intros q H. unfold uns_ctl, ctl_byte. rewrite N.mod_small by exact H. reflexivity. Qed.
+
+Lemma seq16_next_lt : forall q, seq16_next q < 16.
+Proof. intros q. unfold seq16_next. apply N.mod_lt. discriminate. Qed.
+
+Lemma response_bytes_len : forall r buf, r_size r = 0%nat -> length (response_bytes r buf) = 4%nat.
+Proof. intros r buf H. unfold response_bytes. rewrite H. reflexivity. Qed.
+
+Lemma null_hstep : forall cfg e s o s' m,
+  ustep cfg e s o s' -> Inv cfg s -> null_rel e s m ->
+  o = [OOutOfFuel] \/ exists m', mrun null_mon m (map IOb o) = Live m' /\ null_rel e s' m'.
+Proof.
+  intros cfg e s o s' [conf q] H [Hl Hw] Hr. unfold null_rel in *. cbn [fst snd] in *.
+  assert (Hskip : forall l, Forall qob l -> forall m, mrun null_mon m (map IOb l) = Live m).
+  { intros l Hq m. apply mrun_skip. eapply Forall_impl; [|exact Hq]. intros a Ha. apply null_mon_qob. exact Ha. }
+  destruct H.
+  - (* quiet *) right. exists (conf, q). split; [apply Hskip; auto|]. unfold qv in H1.
+    cbn [fst snd]. intros Hc. destruct (Hr Hc) as (A & B & C). split; [congruence|split; [congruence|exact C]].
+  - (* null *) right.
+    destruct H2 as (r & o1 & -> & Ho1 & Hf & Hctl & Hsz & Hc & Hq & Hb & Hu & _).
+    rewrite map_app, mrun_app, Hskip by (eapply Forall_impl; [|exact Ho1]; apply evq_qob).
+    cbn [map]. destruct conf.
+    + exists (true, q). split; [|discriminate].
+      erewrite mrun_cons; [|discriminate|cbn [null_mon]; unfold is_unsol; rewrite nth1_response_bytes, Hf; reflexivity].
+      reflexivity.
+    + destruct (Hr eq_refl) as (A & B & C). exists (false, seq16_next q). split.
+      * erewrite mrun_cons; [reflexivity|discriminate|].
+        cbn [null_mon]. unfold is_unsol. rewrite nth1_response_bytes, Hf. cbn [N.eqb Pos.eqb].
+        rewrite response_bytes_len by exact Hsz. rewrite nth0_response_bytes, Hctl, B, uns_ctl_val by exact C.
+        rewrite N.eqb_refl. reflexivity.
+      * cbn [fst snd]. intros _. split; [congruence|]. split; [congruence|apply seq16_next_lt].
+  - (* data: only after a confirmation *) right. destruct conf; [|destruct (Hr eq_refl) as (A & _); congruence].
+    exists (true, q). split; [|discriminate]. subst o.
+    destruct H6 as (r & o1 & -> & Ho1 & Hf & _).
+    cbn [map]. erewrite mrun_cons; [|discriminate|reflexivity].
+    rewrite map_app, mrun_app, Hskip by (eapply Forall_impl; [|exact Ho1]; apply evq_qob).
+    cbn [map]. erewrite mrun_cons; [|discriminate|cbn [null_mon]; unfold is_unsol; rewrite nth1_response_bytes, Hf; reflexivity].
+    reflexivity.
+  - (* confirmed *) right. exists (true, q). split; [|discriminate]. subst o. destruct n; reflexivity.
+  - (* DISABLE_UNSOLICITED in the wait *) right. exists (conf, q). subst o. split.
+    + rewrite map_app, mrun_app, Hskip by (apply solob_qob; auto). destruct n; reflexivity.
+    + cbn [fst snd]. intros Hc. destruct (Hr Hc) as (A & B & C). rewrite H in Hw. destruct Hw as (_ & _ & Hn).
+      destruct n; [|destruct Hn as [d Hd]; congruence]. split; [exact H5|]. split; [congruence|exact C].
+  - (* retry: never for an empty response *) right. rewrite H in Hw. destruct Hw as (Hf & _ & Hn).
+    destruct n; [destruct Hn as (-> & _); discriminate H1|]. destruct Hn as [d Hd].
+    destruct conf; [|destruct (Hr eq_refl) as (A & _); congruence].
+    exists (true, q). split; [|discriminate]. subst o. unfold repeat_unsolicited. cbn [map].
+    erewrite mrun_cons; [|discriminate|reflexivity]. erewrite mrun_cons; [|discriminate|reflexivity].
+    erewrite mrun_cons; [|discriminate|cbn [null_mon]; unfold is_unsol; rewrite nth1_response_bytes, Hf; reflexivity].
+    reflexivity.
+  - (* timeout *) right. exists (conf, q). subst o. split; [destruct n; reflexivity|].
+    cbn [fst snd]. intros Hc. destruct (Hr Hc) as (A & B & C). rewrite H in Hw. destruct Hw as (_ & _ & Hn).
+    destruct n; [|destruct Hn as [d Hd]; congruence]. split; [exact H4|]. split; [congruence|exact C].
+  - right. exists (conf, q). subst. split; [reflexivity|exact Hr].
+  - right. exists (conf, q). subst. split; [reflexivity|exact Hr].
+  - right. exists (conf, q). subst. split; [reflexivity|exact Hr].
+  - left. assumption.
+Qed.
+
+Theorem null_until_confirmed_mon : forall cfg s tr,
+  Trace cfg s tr -> mrun null_mon (false, 0) tr <> Bad.
+Proof.
+  intros cfg s tr Ht.
+  destruct (trace_run cfg _ null_mon null_rel (false, 0)) with (s := s) (tr := tr) as [Hd|(m & Hm & _)];
+    try (rewrite Hd; discriminate); try (rewrite Hm; discriminate); try exact Ht.
+  - intros sel op iin a _. repeat split. reflexivity.
+  - apply null_hstep.
+  - intros x [conf q] ev _ _ _ Hr. exists (conf, q). split; [reflexivity|exact Hr].
+  - intros ev x m Hr. exact Hr.
+  - intros ev x m t _ Hr _. exact Hr.
+Qed.
